@@ -399,7 +399,24 @@ def harvest(ctx, rep, f_ga, f_sh):
                             "population-shape", True, pg.tolist(), None, "C06_population_shape")
         for r in records:
             draws = [d for d in r["draws"]]
+            # a k-tournament is k DISTINCT individuals, the fittest wins: whatever the draws were, a winner has at least k-1 other
+            # individuals that are not fitter than it (checked on the arguments and result of the selection call itself)
+            if r["kind"] == "ga" and r["names"][0].startswith("tournament") and len(r.get("calls", [])) == 3:
+                selc = r["calls"][0]
+                k_ = tour if r["names"][0].endswith("_k") else int(r["names"][0].rsplit("_", 1)[1])
+                fs0 = np.asarray(selc["args"][0], dtype=np.float64)
+                for w_ in np.asarray(selc["out"]).astype(int):
+                    rep.count("tournament-winner", (seed, len(rep.nontrivial)), nontrivial=False)
+                    if k_ <= len(fs0) and int(np.sum(fs0 <= fs0[w_])) - 1 < k_ - 1:
+                        rep.problem("wiring", f"{kind} with {r['names'][0]}: a selected parent cannot have won a tournament of {k_} distinct individuals "
+                                    f"(only {int(np.sum(fs0 <= fs0[w_])) - 1} others are not fitter)",
+                                    dict(fn="tournament_selection", optimizer=kind, names=list(r["names"]), tour_size=k_, fitness=fs0.tolist(), selected=int(w_), seed=seed, pop_size=pop),
+                                    "tournament-not-k-distinct", True, int(w_), None, "C06_pools_named")
+                        break
             if any(d[0] not in ("U", "I") for d in draws):
+                rep.hist("record_with_other_draw_kinds", str(sorted({d[0] for d in draws})))
+                rep.problem("wiring", f"{kind} {r.get('names')}: the operators drew random numbers of a kind the named operators do not use: {sorted({d[0] for d in draws})}",
+                            dict(optimizer=kind, names=list(r.get("names", [])), seed=seed, draws=draws[:12]), "unknown-draw-kind", False)
                 continue
             if not r["unmodified"]:
                 rep.problem("inputs", f"{kind}: an operator modified its inputs", dict(kind=kind, kw=kw, seed=seed), "inputs-modified", True)
